@@ -15,6 +15,7 @@
 (*   stored(url) / setid(_,u)   cache' = cache \cup {url}                  *)
 (*   follow(ref) / cut(ref)     only after circ(ref, FALSE) / (ref, TRUE)  *)
 (*   resolve, hop               stuttering steps                           *)
+(*   call                       boundary between successive library calls  *)
 (***************************************************************************)
 EXTENDS CycleCut
 
@@ -32,6 +33,8 @@ Step(st, e, i) ==
        IN IF found = IsCirc(st.memo, ps, ref) THEN st2
           ELSE Bad(st2, i, IF found THEN "circ: reported circular, neither memoised nor on the path"
                                     ELSE "circ: on the path or memoised, reported not circular")
+  ELSE IF ev = "call" THEN   \* a new library call: fresh memo and per-call cache
+       [st EXCEPT !.memo = {}, !.cache = {}, !.pending = "", !.lastRef = ""]
   ELSE IF ev = "load" THEN
        LET url == e[2]  hit == (e[3] = "1") IN
        IF ~hit /\ url \in st.cache
